@@ -17,7 +17,9 @@
 (* answered in order, a reader takes the next reply whatever it is.        *)
 (***************************************************************************)
 EXTENDS Naturals, Sequences, FiniteSets, TLC
-CONSTANTS Threads, OpKinds, LockMode, Prog
+CONSTANTS Threads, OpKinds, LockMode, Prog,
+          Leaky     \* operation kinds whose ERROR exit was measured to return with Server.mu still held
+                    \* (empty for a correct implementation; filled in from probes of the real code)
 VARIABLES op, pc, seg, writer, readers, cmu, sub, pending, replyq, got, inTab
 vars == <<op, pc, seg, writer, readers, cmu, sub, pending, replyq, got, inTab>>
 None == "none"
@@ -63,11 +65,19 @@ Recv(t) == /\ pc[t] = "run" /\ sub[t] = "sent" /\ replyq # <<>>
            /\ cmu' = IF Cur(t) = "call" THEN None ELSE cmu
            /\ Advance(t)
            /\ UNCHANGED <<op, writer, readers, pending, inTab>>
+\* The underlying agent answers the exchange with a failure (or the connection breaks): the operation abandons
+\* its remaining segments and returns an error.  It must still release the lock - unless its kind is Leaky.
+RecvFail(t) == /\ pc[t] = "run" /\ sub[t] = "sent" /\ replyq # <<>>
+               /\ got' = [got EXCEPT ![t] = Append(got[t], Head(replyq))] /\ replyq' = Tail(replyq)
+               /\ sub' = [sub EXCEPT ![t] = "none"]
+               /\ cmu' = IF Cur(t) = "call" THEN None ELSE cmu
+               /\ pc' = [pc EXCEPT ![t] = IF op[t] \in Leaky THEN "done" ELSE "rel"]
+               /\ UNCHANGED <<op, seg, writer, readers, pending, inTab>>
 Release(t) == /\ pc[t] = "rel" /\ pc' = [pc EXCEPT ![t] = "done"]
               /\ writer' = IF writer = t THEN None ELSE writer
               /\ readers' = readers \ {t}
               /\ UNCHANGED <<op, seg, cmu, sub, pending, replyq, got, inTab>>
-ThreadStep(t) == Acquire(t) \/ TabEnter(t) \/ TabLeave(t) \/ CmuTake(t) \/ Send(t) \/ Recv(t) \/ Release(t)
+ThreadStep(t) == Acquire(t) \/ TabEnter(t) \/ TabLeave(t) \/ CmuTake(t) \/ Send(t) \/ Recv(t) \/ RecvFail(t) \/ Release(t)
 Next == ServerReply \/ \E t \in Threads : ThreadStep(t)
 Fair == WF_vars(ServerReply) /\ \A t \in Threads : WF_vars(ThreadStep(t))
 Spec == Init /\ [][Next]_vars /\ Fair
@@ -77,6 +87,8 @@ TableExclusion == \A a, b \in Threads : (a # b /\ inTab[a] # "none" /\ inTab[b] 
 WireExclusion  == Len(pending) + Len(replyq) <= 1
 OwnReply       == \A t \in Threads : \A i \in 1..Len(got[t]) : got[t][i] = t
 AllDone        == <>(\A t \in Threads : pc[t] = "done")
+\* an operation that has returned (normally or with an error) holds nothing: otherwise nobody else ever completes
+NoLeak == \A t \in Threads : pc[t] = "done" => (writer # t /\ t \notin readers)
 \* readers-writer lock sanity
 RWSane == (writer # None => readers = {})
 =============================================================================
